@@ -114,6 +114,9 @@ def qs_worker(prop, seed, widx, nworkers, plan, scratch, allow_restart=False, ru
                 # a live render job the queue no longer finds under its id: its status reads
                 # "waiting for render process" whatever the job does, and 'progress' after it finished
                 owner = "C19"
+            if prop == "C16" and v["class"] == "R-final" and v["message"].startswith("unfinished job"):
+                # an accepted, unfinished job the server no longer knows at all is as lost as a job can be
+                owner = "C16"
             if owner != prop:
                 Stats.merge(st["foreign"], {v["class"]: 1})
             else:
